@@ -43,6 +43,9 @@ def cases(tier, seed):
 
 def check(case):
     ref = reference()
+    if not ref["norm4_indices_twice"]:
+        return False, ("two overlap factors inside norm_factor(4) share their contracted indices "
+                       "(an index occurs more than twice in a term)")
     if not ref["targets_not_summed"]:
         return False, "a requested target index reappears as a summation index of the result"
     if not ref["psi_disjoint"] or not ref["norm_disjoint"]:
@@ -55,6 +58,8 @@ def check(case):
                                f"{ref[k][:300]}")
         if not got["psi_disjoint"] or not got["norm_disjoint"]:
             return False, "psi / norm_factor share contracted indices after this history"
+        if not got["norm4_indices_twice"]:
+            return False, f"after this history ({case}) factors inside norm_factor(4) share contracted indices"
         if not got["targets_not_summed"]:
             return False, (f"after this history ({case}) a requested target index reappears as a "
                            "summation index of the result")
